@@ -47,9 +47,7 @@ def _selected():
 # real code is UNWIND: every such loop is bounded by a precondition (chunk <= 8 bytes, EE key parts <= 12
 # bytes when compared, <= 2 anchors / names / certificates, strings <= 7 characters)
 UNWIND = 14
-HARNESS_LOOPS = ["main.%d:40" % i for i in range(4)] + ["c05_env.%d:70" % i for i in range(14)] + \
-                ["c05_engine_env.%d:70" % i for i in range(8)] + ["c05_init_symbolic.%d:40" % i for i in range(48)] + \
-                ["c05_anchor.%d:70" % i for i in range(2)] + ["c05_pkey_setup.%d:12" % i for i in range(3)]
+HARNESS_LOOPS = t0tool.HARNESS_LOOPS
 HEAVY = {("x509min", "check-direct-trust")}
 SPECIAL_UNWIND = {"strlen": 260, "verify-SKE-sig": 50, "verify-CV-sig": 50}
 
@@ -83,6 +81,17 @@ def queries():
                 qs.append(Q("nat-%s-%d-%s%s" % (key, n.op, t0tool.sanitise(n.name), suf), "C05_native.c", units=units,
                             defs=base + xd, unwind=SPECIAL_UNWIND.get(n.name, UNWIND), unwindset=HARNESS_LOOPS,
                             timeout=to, tier=tier, desc=desc + dx))
+    for key in ("pkey", "skey", "x509dec", "x509min"):
+        if key not in _selected():
+            continue
+        try:
+            p = _prog(key)
+            d = t0tool.gen_dir(p)
+        except Exception:
+            continue
+        qs.append(Q("pushgate-%s" % key, "C05_pushgate.c", units=[], defs=["-DC05_KEY_%s=1" % key, "-I" + d, "-I" + os.path.join(ROOT, "encoders")],
+                    unwind=6, timeout=120, tier="quick",
+                    desc="%s: the push/append entry point of %s does not resume the T0 coroutine once err != 0 (any err, any chunk length <= 4); justifies the 'no resume after fail' reading of the E4 stack system" % (key, p.rel)))
     return qs
 
 
@@ -127,6 +136,8 @@ def _native_demo(repo, builddir, args, tag):
     return crashed, keep[-1200:], rpath
 
 
+# decoders whose push function is a plain public entry point; whether it tests err is decided by
+# query pushgate-<key> / t0tool.push_gated (it did not before /repo c33642a)
 NO_ERR_GATE = {"pkey": "br_pkey_decoder_push", "skey": "br_skey_decoder_push", "x509dec": "br_x509_decoder_push"}
 DEMO_ARG = {"pkey": ["pkey"], "skey": ["skey"], "x509dec": ["x509"]}
 
@@ -166,7 +177,8 @@ def extra_checks(tier, repo, builddir):
                 out.append(_res("e4-stack-%s" % key, "INCONCLUSIVE", desc, stats=st, kind="encoding", total_wall_s=st["wall_s"],
                                 reason="program not covered by the stack system: " + "; ".join(why)[:600]))
         # ---- E4 when every yield may be resumed (push functions that do not test err)
-        if key in NO_ERR_GATE:
+        gated = t0tool.push_gated(p) if key in NO_ERR_GATE else None
+        if key in NO_ERR_GATE and gated is not True:
             t1 = time.time()
             rb = t0tool.stack_system(p, effs, resume_after_fail=True)
             desc_b = ("E4 for %s when the caller keeps pushing after an error (%s does not test err, so the coroutine is resumed after the failing "
